@@ -8,16 +8,17 @@ EXPLANATION = (
     "PROVED (SMT, unbounded): the local clauses L1 (edge endpoints carry equal lineage ids), L2 (distinct roots carry distinct ids), "
     "'every node has a lineage id' and 'lineage ids <= max lineage id' are preserved by every user-action constructor whenever the "
     "lineage feature is enabled. Local => global ('same id iff connected') is bridge lemma M1 (Lean). The relabel walk body is PROVED against its contract (lineage rewritten for exactly the nodes below start, iff the lineage feature is enabled). "
-    "BOUNDED STAND-IN (not a proof): bulk assignment.")
+    "Base case PROVED too (contracts/bulkids.py): the real bulk assignment at construction (_assign_tracklet_ids / _assign_lineage_ids, _assign_ids, Tracks._set_nodes_attr) gives every node the id 1 + index of its component - components of the graph minus the out-edges of dividing nodes for track ids, of the whole graph for lineage ids -, which yields has_id and T1 / L1 directly and T2 / L2 by the Lean lemmas segment_iff_tracklet_gives_T1_T2 / connected_iff_lineage_gives_L1_L2 from the definition of weakly connected components; the lookups list exactly the nodes per id and the maxima equal the number of components (B1, B2). So the invariant holds after construction and is preserved by every edit. BOUNDED cross-check (not a proof): walk and bulk assignment on small forests.")
 ASSUMPTIONS = ["the lineage feature is enabled", "a new node's lineage is derived by UserAddNode (attributes contain time and track id, not a lineage id)",
                "undo/redo: through C01 and C02"]
 LEMMAS = ["M1 (L1&L2 <=> same lineage id iff connected)", "M3 facts of the descendant closure"]
-NOT_UNDER_CONTRACT = ["TrackAnnotator._assign_lineage_ids (bounded stand-in)"]
+NOT_UNDER_CONTRACT = []
 
 
 def units(tier):
     from contracts import walk
-    return walk.units() + useractions.units(UA_ALL, {"lineage_inv": True})
+    from contracts import bulkids
+    return bulkids.units() + walk.units() + useractions.units(UA_ALL, {"lineage_inv": True})
 
 
 def bounded(tier, seed):
